@@ -191,19 +191,33 @@ def run_transition(U, enc, pre_obs, pre_abs, op, acc, hist, cache, obs_cache, pr
                         acc.violation('C05', sig('duplicate-id-rejected-with-wrong-exception'),
                                       f'{O.describe(op)} would duplicate an id and raised {type(exc).__name__}, not RuntimeError',
                                       case())
-        # C11 (c): re-attachment of a free detached root must be accepted
-        if pre_ok and op[0] in ('//1', 'append') and op[1][0] == 'W':
-            y = op[2]
-            k = op[1][1]
-            if _free_root(pre_abs, y):
+        # C11 (c): re-attachment of a free detached root (never owned, or removed from a WBS) must be accepted - at root level of a
+        # WBS or below one of its member tasks - unless an id of the subtree is already used in that WBS or a task of the subtree
+        # has a dependency link with the new parent or one of its ancestors (the two documented reasons for refusing an adoption)
+        tgt = None
+        if pre_ok:
+            if op[0] in ('//1', 'append'):
+                tgt = (op[1], op[2])
+            elif op[0] == 'parent' and op[2] is not None:
+                tgt = (('T', op[2]), op[1])
+            elif op[0] == 'insert' and 0 <= op[2] <= len(O._lst(pre_abs, op[1])):
+                tgt = (op[1], op[3])
+        if tgt is not None and _free_root(pre_abs, tgt[1]):
+            c, y = tgt
+            sub = pre_abs.subtree(y)
+            k = c[1] if c[0] == 'W' else pre_abs.own[c[1]]
+            line = [] if c[0] == 'W' else [c[1]] + pre_abs.ancestors(c[1])
+            if k is not None and not (set(line) & set(sub)):
                 mem_ids = {U.ids[v] for v in pre_abs.members(k)}
-                sub_ids = [U.ids[v] for v in pre_abs.subtree(y)]
-                if not (mem_ids & set(sub_ids)) and len(set(sub_ids)) == len(sub_ids):
+                sub_ids = [U.ids[v] for v in sub]
+                linked = any((pre_abs.pred[v] | pre_abs.succ[v]) & set(line) for v in sub)
+                if not (mem_ids & set(sub_ids)) and len(set(sub_ids)) == len(sub_ids) and not linked:
                     acc.count('c11_premise_free_root_attach')
                     acc.violation('C11', sig('free-root-attach-rejected'),
-                                  f'{O.describe(op)} rejected ({type(exc).__name__}) although t{y} is a detached root '
-                                  f'with ids disjoint from W{k}', case())
-    if exc is None and op[0] in ('//1', 'append') and op[1][0] == 'W' and _free_root(pre_abs, op[2]):
+                                  f'{O.describe(op)} rejected ({type(exc).__name__}: {str(exc)[:80]}) although t{y} is a detached root with ids '
+                                  f'disjoint from W{k} and without links to its new ancestors', case())
+    if exc is None and pre_ok and ((op[0] in ('//1', 'append') and _free_root(pre_abs, op[2])) or
+                                   (op[0] == 'parent' and op[2] is not None and _free_root(pre_abs, op[1]))):
         acc.count('c11_premise_free_root_attach')
     return post_enc, si
 
